@@ -75,6 +75,7 @@ func c14Menu(c lockCfg, thorough bool) func(w *engb.World, st *engb.LState, dept
 	}
 	base := []engb.LBlock{
 		{Dt: 1}, {Dt: 61},
+		{Dt: 59, DtMs: 600}, {DtMs: 500}, // just short of / just past the end of a jail term, with sub-second times
 		{Dt: 1, Absent: []int{0}},
 		{Dt: 1, Absent: []int{1}},
 		{Dt: 1, Absent: []int{0, 1}},
